@@ -1056,7 +1056,10 @@ def _gen_task(t):
 MODES = ("plain", "g1", "g0", "ign", "reuse")
 
 
-def analyse(prog, p, modes=MODES, domains=None):
+PRISTINE_FOR = {"ALL", "C01", "C03", "C04", "C05", "C14", "C15", "C16"}
+
+
+def analyse(prog, p, modes=MODES, domains=None, want_pristine=True):
     """All vectors x modes for one program; returns (stats, violations)."""
     H.R.p = p
     st = {"executions": 0, "transitions": 0, "completed": 0, "raised": 0, "compared": 0}
@@ -1148,7 +1151,7 @@ def analyse(prog, p, modes=MODES, domains=None):
             v("trace", "g0", list(by_mode["g0"].values())[0], "the constraint system differs between a true and a false enclosing secret guard")
     st["distinct_traces"] = sum(len(t) for t in by_mode.values())
     # same execution, pristine process (see _start_template): first and last vector, every mode but ignore-errors
-    if _TEMPLATE is not None:
+    if _TEMPLATE is not None and want_pristine:
         for vec in ([vecs[0], vecs[-1]] if len(vecs) > 1 else vecs):
             for mode in modes:
                 if mode == "ign":
@@ -1182,16 +1185,16 @@ def _same_regs(a, b):
 
 
 PROP_MODES = {"C03": ("plain", "reuse"), "C01": ("plain", "g1", "g0", "reuse"), "C04": MODES, "C05": ("plain", "g1", "reuse"), "C06": ("plain", "g1", "g0", "ign"),
-              "C07": ("plain", "g1", "g0"), "C08": MODES, "C09": ("plain", "g1"), "C14": ("plain", "g1", "reuse"),
+              "C07": ("plain", "g1", "g0"), "C08": ("plain", "g1", "g0"), "C09": ("plain", "g1"), "C14": ("plain", "g1", "reuse"),
               "C15": ("plain", "g1", "reuse"), "C16": ("plain", "g1", "reuse")}
 
 
 def _task(t):
-    progs, p, modes = t
+    progs, p, modes, pid = t
     agg = {}
     viols = {}
     for prog in progs:
-        st, vs = analyse(prog, p, modes)
+        st, vs = analyse(prog, p, modes, want_pristine=pid in PRISTINE_FOR)
         common.merge_counts(agg, st)
         for x in vs:
             h = common.sig_hash(x["sig"])
@@ -1210,7 +1213,7 @@ KEEP = {
     "C04": lambda s, feats: s["klass"] in ("valwire", "hist-valwire"),
     "C05": lambda s, feats: s["klass"] in ("value", "no-raise", "mutated", "reuse-diff", "hist-value") and not ({"array", "linalg"} & set(feats)) and "F" not in s.get("t", ""),
     "C06": lambda s, feats: s["klass"] in ("trace", "hist-trace"),
-    "C07": lambda s, feats: s["klass"] in ("dead-raise", "live-diff") or (s["klass"].startswith("hist-") and s["mode"] in ("g0", "g1")) or (s["klass"] == "unsat" and s["mode"] == "g0"),
+    "C07": lambda s, feats: s["klass"] in ("dead-raise", "live-diff") or (s["klass"] == "unsat" and s["mode"] == "g0"),
     "C08": lambda s, feats: s["klass"] == "state",
     "C09": lambda s, feats: s["klass"] in ("value", "no-raise") and "lazy" in feats,
     "C14": lambda s, feats: s["klass"] in ("value", "no-raise", "hist-value"),
@@ -1243,7 +1246,7 @@ def sweep(ctx, pid, fields=None, f_only=None):
     per = max(1, len(progs) // (common.NCPU * 6))
     for p in fields:
         for i in range(0, len(progs), per):
-            chunks.append((progs[i:i + per], p, PROP_MODES.get(pid, MODES)))
+            chunks.append((progs[i:i + per], p, PROP_MODES.get(pid, MODES), pid))
     results = common.pool_map(_task, chunks, init=_init, initargs=(REC.BN128,), force_fork=True)
     agg = {}
     n = 0
